@@ -231,7 +231,7 @@ Proof.
 Qed.
 
 (* ---------- one trait of the copy loop ---------- *)
-Definition skipped (op : copyop) (c0 : cls) (d : tdef) : bool := td_transient d && negb (copies_all op c0).
+Definition skipped (op : copyop) (c0 : cls) (d : tdef) : bool := td_transient d.
 
 Definition copy_one (op : copyop) (c0 : cls) (src : vals) (o : Z) (st : vals * Z) (kd : Z * tdef) : vals * Z :=
   let '(dst, n) := st in
@@ -247,7 +247,7 @@ Lemma copy_into_fold : forall op c0 src o c dst n,
   copy_into op c0 c src o dst n = fold_left (copy_one op c0 src o) c (dst, n).
 Proof.
   intros op c0 src o c. induction c as [|[k d] r IH]; intros dst n; simpl; [reflexivity|].
-  unfold skipped. destruct (td_transient d && negb (copies_all op c0)); [apply IH|].
+  unfold skipped. destruct (td_transient d); [apply IH|].
   destruct (vget src k) as [v|]; [|apply IH].
   destruct (copy_value (effective op d) v n) as [v1 n1]. destruct (assign c0 o dst k v1 n1) as [[dst' n2] out].
   apply IH.
